@@ -131,7 +131,7 @@ class Transformer(Visitor):
         for k, handle in self.mapper.items():
             if is_iterable(k):
                 o = replace_windowed(o, k, subs=handle)
-            if k in o and is_iterable(handle):
+            elif k in o and is_iterable(handle):
                 # Replace k by the iterable that is provided by handle
                 o, i = _inject_handle(o, 0, k, handle)
                 while k in o[i:]:
